@@ -248,7 +248,14 @@ def _compile_files_cache(filenames,
                          encoding,
                          cache_dir,
                          numeric_enums):
-    key = [codec.encode('ascii')]
+    # Everything that influences the compiled specification is part
+    # of the key.
+    key = [
+        codec.encode('ascii'),
+        repr(numeric_enums).encode('ascii'),
+        repr(any_defined_by_choices).encode('utf-8'),
+        repr(encoding).encode('utf-8')
+    ]
 
     if isinstance(filenames, str):
         filenames = [filenames]
@@ -257,7 +264,9 @@ def _compile_files_cache(filenames,
         with open(filename, 'rb') as fin:
             key.append(fin.read())
 
-    key = b''.join(key)
+    # Length prefixed parts; file boundaries matter.
+    key = b''.join([str(len(part)).encode('ascii') + b':' + part
+                    for part in key])
     cache = diskcache.Cache(cache_dir)
 
     try:
